@@ -55,7 +55,7 @@ CHECKS = {
           "Lean 4 partial proof (variational bound) + hypothesis check + dense-oracle search", "§6 C08, §10.2", "other"),
  "C09": P("Partial: one explicit RK step = polynomial in the generator for every tableau and every linear generator (rk_step_poly) with coefficients 1/k! up to the advertised order (generated facts); "
           "adaptive controller model with time conservation for every factor sequence; projector-splitting sweeps as symmetric compositions (C12 theorems on the linear tree), the local-propagation "
-          "sequence of the real chain tdvp_ps / tdvp_ps2 replayed exactly. The real general RK scheme at full bond dimension equals the model polynomial (1e-15) for all ten tableaux. Orders by slopes, solver independence, "
+          "sequence of the real chain tdvp_ps / tdvp_ps2 replayed exactly; every sequence of one-site local steps conserves norm and energy at any bond dimension (Props/C09Conserve: sweep_conserves), hypotheses and conclusion checked on every recorded local propagation of the real sweep. The real general RK scheme at full bond dimension equals the model polynomial (1e-15) for all ten tableaux. Orders by slopes, solver independence, "
           "split calls, PS conservation, bond limits: dense oracle.",
           LEAN_TB + "Error orders and solver convergence are numerical.",
           "Lean 4 partial proof (RK polynomial, translator-generated facts) + correspondence + dense-oracle search", "§6 C09, §10.2", "other"),
@@ -71,7 +71,7 @@ CHECKS = {
           LEAN_TB + "tn imports only with the print_tree shim.",
           "Lean 4 partial proof (state-sum model) + correspondence + dense-oracle search", "§6 C11, §10.2", "other"),
  "C12": P("Partial: Lean traversal models of the one- and two-site projector-splitting sweeps for every rooted tree (one local step per node/edge; backward half sweep = mirror image of the forward one; "
-          "hence a symmetric, time-reversible composition in any group of local flows) + C09's RK skeleton + C11's bond-gauge theorem; the event sequence of the real sweeps is replayed exactly; "
+          "hence a symmetric, time-reversible composition in any group of local flows) + C09's RK skeleton and conservation theorem (Props/C09Conserve) + C11's bond-gauge theorem; the event sequence of the real sweeps is replayed exactly; "
           "dense propagator oracle for all four schemes in real and imaginary time, sector, conservation, chain agreement.",
           LEAN_TB + "Orders and conservation laws are numerical. Open findings listed in known_findings.json.",
           "Lean 4 partial proof (sweep traversal / symmetric composition, RK skeleton) + exact event-sequence correspondence + dense-oracle search", "§6 C12, §10.2", "other"),
@@ -88,7 +88,7 @@ CHECKS = {
  "C16": P("Lean: harmonic-oscillator symbols in the scaled number basis for every size / frequency parameter / origin: two-operator products, CCR, x^2, p^2, x p, p x in the written order. Real "
           "BasisSHO.op_mat replayed against the model with the similarity scaling. Defining relations of every basis class, sine-DVR quadrature, builders vs independent dense Hamiltonians: dense oracle.",
           LEAN_TB + "Spin-1/2 and multi-electron tables: Lean model (Model/Spin, Props/C16Spin) replayed exactly. General powers, DVR, sine-DVR integrals, builders, Quantity: oracle only (partial). Open finding: BasisMultiElectronVac 'a a^dagger'.",
-          "Lean 4 proof (SHO algebra over Gaussian rationals) + scaled replay", "§6 C16, §10.2"),
+          "Lean 4 proof (SHO algebra over Gaussian rationals; spin-1/2 and multi-electron tables) + exact / scaled replay", "§6 C16, §10.2"),
  "C17": P("Lean: simplify_op is exact on every word over {sigma_z, sigma_+, sigma_-} of any length; the Jordan-Wigner swap rule is the fermionic swap conjugation on the whole admitted alphabet; the Jordan-Wigner ladder operators satisfy the canonical anticommutation relations for every chain length (Props/C17CAR). Real "
           "simplify_op, table_row_swapped_jw, generate_ladder_operator and BasisHalfSpin matrices replayed. qc_model vs independent fermionic matrix, hermiticity, number conservation, OFS swap sequences: dense oracle.",
           LEAN_TB + "CAR is proved for all orbital counts; the step from CAR to equality of the assembled qc_model Hamiltonian with the fermionic matrix is validated by the oracle for 1-4 spatial orbitals.",
